@@ -156,3 +156,4 @@ pub fn no_panic<R>(f: impl FnOnce() -> R + std::panic::UnwindSafe) -> Option<R> 
 pub fn silence_panics() {
     std::panic::set_hook(Box::new(|_| {}));
 }
+pub mod vmarket;
